@@ -5,6 +5,11 @@ from rig import common
 
 WRAPS = "write,read,pipe2,close,epoll_create1,calloc,free,pthread_create,pthread_join,timerfd_create,epoll_ctl"
 PVT = 50
+# life-cycle vocabulary of TpLife (consumed by TpTrace)
+LIFE_CREATE = {"call.create", "call.threads_create", "ret.threads_create", "hook.start", "hook.stop", "ret.create", "tcreate.starting", "tcreate.failed", "proc.enter",
+               "proc.running", "proc.onstart", "proc.onstop", "proc.ptid0", "proc.stop", "proc.exit", "create.pvt_running"}
+LIFE_EVENTS = LIFE_CREATE | {"shutdown.cb", "shutdown.set", "sys.join0", "wait.joined", "destroy.free", "ret.destroy",
+                             "ret.shutdown_wait", "sys.close", "Crash", "Hang"}
 
 def build(d, san=None, compiler=None, opt="-O1"):
     compiler = compiler or ("clang" if san else "gcc")
@@ -33,8 +38,9 @@ def rename_pvt(evs):
     for e in evs:
         if e["e"] == "call.create": n = e["nthr"]
         e = dict(e)
-        for k in ("d", "q", "arg", "t", "a", "b", "cur", "s"):
-            if k in e and n is not None and e[k] == n and not (k in ("a", "b") and e["e"].startswith(("dec.", "bsend.", "cbsend.", "done."))):
+        for k in ("d", "q", "arg", "t", "a", "b", "cur", "s", "pipe"):
+            if k in e and n is not None and e[k] == n and not (k in ("a", "b") and e["e"].startswith(("dec.", "bsend.", "cbsend.", "done."))) \
+               :
                 e[k] = PVT
         out.append(e)
     return out
